@@ -144,6 +144,9 @@ G_Term(cls, m, n, b, seed, depth, mode) ==
             LET m1 == G_Factor(n, seed)
                 K(s) == Op_Kron(<<G_Term("Dense", m1, m1, b1, s, 0, mode), G_Term("Dense", n \div m1, n \div m1, b1, s + 2, 0, mode)>>)
             IN Op_SumKron(<<K(seed + 3), K(seed + 11)>>)
+       \* an interpolated operator nested in a sum: its products go through the sparse W matrices (make_sparse_from_indices_and_values)
+       [] cls = "SumInterp" -> Op_Sum(<<G_Term("Interp", m, n, b1, seed + 3, 1, 0), G_Term("Dense", m, n, b1, seed + 5, 0, 0)>>)
+       [] cls = "MatmulTri" -> Op_Matmul(G_Term("Tri", n, n, b1, seed + 3, 0, 0), G_Term("Dense", n, n, b2, seed + 5, 0, 0))
        [] cls = "SumZ" -> Op_Sum(<<G_Term("Dense", m, n, b1, seed + 3, 0, 0), Op_Zero(b2 \o <<m, n>>)>>)
        [] cls = "AddedDiag" ->
             Op_AddedDiag(IF d1 <= 0 THEN G_Term(G_Pick(IF mode = 1 THEN <<"Dense", "Toeplitz", "Chol">> ELSE G_NonDiagLeaf, seed), n, n, b1, seed + 3, 0, mode)
@@ -224,11 +227,11 @@ G_Term(cls, m, n, b, seed, depth, mode) ==
 G_AllClasses == <<"Dense", "User", "Diag", "ConstDiag", "Identity", "Zero", "Toeplitz", "Tri", "Chol", "CholU", "SumZ", "Root",
                   "LowRankRoot", "Kron", "Kron3", "KronTri", "KronDiag", "KronAddedDiag", "SumKron", "AddedDiag",
                   "LRRAddedDiag", "Sum", "Sum3", "PsdSum", "Matmul", "Mul", "ConstMul", "BlockDiag", "BlockInter",
-                  "SumBatch", "BatchRepeat", "Cat", "Interp", "Masked", "Perm", "TransPerm", "Kernel">>
-G_SquareOnly == {"LRRAddedDiagI", "AddedDiagI", "SumI", "Diag", "ConstDiag", "Identity", "Toeplitz", "Tri", "Chol", "CholU", "Root", "LowRankRoot", "Kron3", "KronTri",
+                  "SumBatch", "BatchRepeat", "Cat", "Interp", "Masked", "Perm", "TransPerm", "Kernel", "SumInterp", "MatmulTri">>
+G_SquareOnly == {"MatmulTri", "LRRAddedDiagI", "AddedDiagI", "SumI", "Diag", "ConstDiag", "Identity", "Toeplitz", "Tri", "Chol", "CholU", "Root", "LowRankRoot", "Kron3", "KronTri",
                  "KronDiag", "KronAddedDiag", "SumKron", "AddedDiag", "LRRAddedDiag", "PsdSum", "Mul", "BlockDiag",
                  "BlockInter", "Perm", "TransPerm"}
-G_LeafClasses == {"LRRAddedDiagI", "AddedDiagI", "SumI", "Dense", "User", "Diag", "ConstDiag", "Identity", "Zero", "Toeplitz", "Chol", "CholU", "SumZ", "LowRankRoot", "KronTri",
+G_LeafClasses == {"SumInterp", "MatmulTri", "LRRAddedDiagI", "AddedDiagI", "SumI", "Dense", "User", "Diag", "ConstDiag", "Identity", "Zero", "Toeplitz", "Chol", "CholU", "SumZ", "LowRankRoot", "KronTri",
                   "KronDiag", "SumKron", "LRRAddedDiag", "Perm", "TransPerm", "Kernel"}
 \* classes that only exist for PSD arguments
 G_PsdOnly == {"Chol", "CholU", "PsdSum", "Mul"}
